@@ -227,7 +227,7 @@ Proof.
   assert (Hm : m_match t (OFull (k_otype k) (k_oid k)) (k_rel k) (UExact (k_user k)) = key_eqb (key_of t) k).
   { unfold m_match, key_eqb, key_of. simpl. rewrite Hid.
     rewrite (beqb_sym (k_otype k)), (beqb_sym (k_oid k)).
-    destruct (beqb (k_rel k) []) eqn:E; [rewrite E in Hrel; discriminate|]. reflexivity. }
+    rewrite Hrel. reflexivity. }
   rewrite Hm. unfold rut_pred at 1. destruct (key_eqb (key_of t) k); simpl; [|exact IH].
   unfold conds_ok, m_contains, bmem.
   destruct (null cs); simpl; [reflexivity|].
